@@ -24,6 +24,7 @@ inductive RErr where
   | io (e : IoErr)
   | invalidFormatVersion
   | invalidCompressionType
+  | cursor                     -- an `Err(_)` returned by a call on the external cursor
   deriving Repr, DecidableEq
 
 /-- How a translated function can fail: a Rust panic, or an `Err` returned through `?` / `return Err`. -/
@@ -233,5 +234,22 @@ def binarySearchByKeyM {Î± Îº : Type} (cmp : Îº â†’ Îº â†’ Ordering) (l : List Î
 @[inline] def okOrErr : Except Nat Nat â†’ Nat
   | .ok i => i
   | .error i => i
+
+/-! ### An external cursor (`ReaderCursor<R>`): the iterators are translated relative to its step function,
+    exactly as the model's iterators are generic in `step`. -/
+
+inductive CurOp where
+  | first | last | next | prev
+  | ge (k : List UInt8) | le (k : List UInt8)
+  | current
+  deriving Repr, DecidableEq
+
+/-- the outcome of one cursor call: `none` = `Err(_)`, `some e` = `Ok(e)` -/
+abbrev CurRes := Option (Option (List UInt8 Ã— List UInt8))
+
+@[inline] def liftCur (r : CurRes) : M (Option (List UInt8 Ã— List UInt8)) :=
+  match r with
+  | some e => pure e
+  | none => throw (Fail.err RErr.cursor)
 
 end Grenad.R
